@@ -259,10 +259,12 @@ func modelScenarioWith(cfg modelCfg, prebuilt *builder.RuleBuilder) *hx.Scenario
 			livePool = nil
 			g := engine.NewGengine()
 			x.err, x.pan = call(g, x.log, x.cnt)
+			x.log.Ev("ret", 0) // everything the call started must be over by now
 			x.res, _ = g.GetRulesResultMap()
 			x.res = gx.CopyResult(x.res)
 			if cfg.Twice {
 				x.err2, x.pan2 = call(g, x.log2, x.cnt2)
+				x.log2.Ev("ret", 0)
 			}
 			if cfg.Diff != "" {
 				tw := gx.ModelByName(cfg.Diff)
@@ -287,6 +289,12 @@ func modelScenarioWith(cfg modelCfg, prebuilt *builder.RuleBuilder) *hx.Scenario
 			}
 			if x.pan != nil {
 				return []hx.Finding{{Sig: pfx + "panic", Msg: fmt.Sprintf("the call panicked: %v", x.pan) + desc()}}
+			}
+			// a rule that is still running after the execute call returned
+			for _, l := range []*gx.Log{x.log, x.log2} {
+				if i := l.Index("ret", 0, 0); i >= 0 && i != len(l.Evs)-1 {
+					return []hx.Finding{{Sig: pfx + "rule-still-running-after-return", Msg: fmt.Sprintf("the call returned while a rule it had started was still running (events after the return: %v)", l.Evs[i+1:]) + desc()}}
+				}
 			}
 			if cfg.Repeats {
 				named := map[string]bool{}
@@ -345,9 +353,12 @@ func modelScenarioWith(cfg modelCfg, prebuilt *builder.RuleBuilder) *hx.Scenario
 }
 
 func toRefLog(l *gx.Log) []ref.Ev {
-	out := make([]ref.Ev, len(l.Evs))
-	for i, e := range l.Evs {
-		out[i] = ref.Ev{K: e.K, ID: e.ID}
+	out := make([]ref.Ev, 0, len(l.Evs))
+	for _, e := range l.Evs {
+		if e.K == "ret" {
+			continue
+		}
+		out = append(out, ref.Ev{K: e.K, ID: e.ID})
 	}
 	return out
 }
